@@ -750,8 +750,10 @@ def run_case_c15(case):
                         offs = sorted(keep & set(offs))
                     points.extend((k, b) for b in offs)
                 else:
-                    enumerated += 1
+                    enumerated += 2
                     points.append((k, 0))
+                    # ... and right after it completed (before any un-gated call that may follow)
+                    points.append((k, -1))
             points.append((len(ops), 0))  # killed right after the last op
             enumerated += 1
             if case.get("only_points") is not None:
